@@ -216,6 +216,12 @@ def run_unit(unit, repo, canary=False, rlimit=None, tag=None, threads=None):
                           functions=[], verified=0, errors=0, solver_time_s=0, wall_s=0, cmd="", path=path)
     with open(path, "w", encoding="utf-8") as f:
         f.write(gen.text)
+    if rlimit is None:
+        # a unit may ask for a larger resource limit in its template header: `// rlimit: N`
+        import re as _re
+        m = _re.search(r"^// rlimit: (\d+)", open(tmpl, encoding="utf-8").read(), _re.M)
+        if m:
+            rlimit = int(m.group(1))
     cmd, out, err, rc, wall = run_verus(path, rlimit=rlimit, threads=threads)
     result, diags, other = parse_outputs(out, err)
     res = classify(gen, result, diags, other, rc)
